@@ -5,7 +5,8 @@
 From Coq Require Import ZArith List String Bool Lia Permutation.
 From Gigue Require Import Types Bits Isa Enc GenTables Builder Samplers Generator GenLemmas Machine MachineLemmas ImageSem
   GenWF GenWFProps SliceLemmas GenWF2 GenWF2Props BodyExec GenWF5 CodeMem MethodContract SaveRestore TrampExec TrampsInv TrampStubs
-  WholeImage Loader Reloc.
+  WholeImage Loader Reloc CallFrameRimi MethodContractRimi WholeImageRimi LoaderRimi RimiFullExec WholeImageRimiFull LoaderRimiFull
+  GenWF9F WalkK FixerTamper FixerCall MethodContractFixer WholeImageFixer LoaderFixer.
 Import ListNotations.
 Open Scope list_scope.
 Open Scope Z_scope.
@@ -103,6 +104,153 @@ Proof.
   apply Z.leb_le in H1. rewrite Hs, H8, H7, H6, H5, H4, H3, H2. cbn [andb].
   apply andb_true_intro; split; apply Z.leb_le; lia.
 Qed.
+
+(* ---- the same for the three protected variants ---- *)
+Lemma ss_need_sh ms : forall f id, MethodContractRimi.ss_need (map (shm d) ms) f id = MethodContractRimi.ss_need ms f id.
+Proof.
+  induction f as [|f IH]; intros id; cbn [MethodContractRimi.ss_need]; [reflexivity|].
+  rewrite nth_error_map. destruct (nth_error ms id) as [m|]; cbn [option_map]; [|reflexivity].
+  change (m_callees (shm d m)) with (m_callees m). change (m_is_leaf (shm d m)) with (m_is_leaf m).
+  f_equal. induction (m_callees m) as [|x tl IHl]; cbn [fold_right]; [reflexivity|]. rewrite IH, IHl. reflexivity.
+Qed.
+
+Lemma unshift_eh (es : list elt) : forall eh' : list (elt * Z), map fst eh' = map (she d) es ->
+  exists eh, map fst eh = es /\ eh' = map (fun x => (she d (fst x), snd x)) eh.
+Proof.
+  induction es as [|e tl IH]; intros eh' E1.
+  - destruct eh'; [|discriminate]. exists []. split; reflexivity.
+  - destruct eh' as [|[e' h] tl']; [discriminate|]. cbn [map fst] in E1. inversion E1 as [[E2 E3]].
+    destruct (IH tl' E3) as (eh & F1 & F2). exists ((e, h) :: eh). cbn [map fst snd]. rewrite F1, F2. split; reflexivity.
+Qed.
+
+(* RIMI shadow-stack *)
+Lemma rNtot_sh c img : WholeImageRimi.rNtot (shc d c) (shi d img) = WholeImageRimi.rNtot c img.
+Proof.
+  unfold WholeImageRimi.rNtot, WholeImageRimi.rtb, WholeImageRimi.rNmax, WholeImageRimi.rneed_id. cbn [shi im_methods]. rewrite max_depth_sh, map_length.
+  f_equal. induction (seq 0 (List.length (im_methods img))) as [|x tl IH]; cbn [fold_right]; [reflexivity|].
+  rewrite need_method_sh, IH. reflexivity.
+Qed.
+Lemma SSmax_sh img : WholeImageRimi.SSmax (shi d img) = WholeImageRimi.SSmax img.
+Proof.
+  unfold WholeImageRimi.SSmax, WholeImageRimi.ssn_id. cbn [shi im_methods]. rewrite max_depth_sh, map_length.
+  induction (seq 0 (List.length (im_methods img))) as [|x tl IH]; cbn [fold_right]; [reflexivity|].
+  rewrite ss_need_sh, IH. reflexivity.
+Qed.
+Lemma rimage_steps_sh img eh :
+  WholeImageRimi.rimage_steps (shi d img) (map (fun x => (she d (fst x), snd x)) eh) = WholeImageRimi.rimage_steps img eh.
+Proof.
+  unfold WholeImageRimi.rimage_steps, WholeImageRimi.rchain_cost. f_equal. f_equal.
+  induction eh as [|[e h] tl IH]; cbn [map fold_right fst snd]; [reflexivity|]. rewrite IH. f_equal.
+  unfold WholeImageRimi.relem_cost, WholeImageRimi.rmsteps. cbn [shi im_methods]. rewrite max_depth_sh.
+  destruct e as [id|p]; cbn [she shp p_methods]; rewrite steps_method_sh; reflexivity.
+Qed.
+
+Theorem rimiss_image_runs_relocated c script img :
+  successful c script img -> c_variant c = GRimiSS -> c_data_reg c <> 6 -> cfg_ok (shc d c) = true ->
+  forall L s0, Init (shc d c) (shi d img) (WholeImageRimi.rNtot c img) L s0 -> code_lo L = int_start_al c + d ->
+    code_hi L - code_lo L < 2147483648 - 2048 -> pics_encodable (shi d img) ->
+    WholeImageRimi.SSmax img <= zlen (im_ss img) ->
+    (forall r o, In (r, o) int_slots -> 0 <= rget s0 r < W64) ->
+    exists s' eh, map fst eh = im_elements img /\
+      run (gv c) L (WholeImageRimi.rimage_steps img eh) s0 = (Next s', WholeImageRimi.rimage_steps img eh) /\ pc s' = halt_at L /\
+      rget s' 28 = ss_hi L /\ dom s' = 0 /\ cfi s' = [].
+Proof.
+  intros Hs Hv H6 Hc' L s0 HI Hat Hsm Hpe Hcap Hr.
+  pose proof (successful_sh c script img Hs Hc') as Hs'.
+  rewrite <- (rNtot_sh c img) in HI. rewrite <- (SSmax_sh img) in Hcap.
+  assert (Hat' : code_lo L = int_start_al (shc d c)) by (rewrite (int_start_sh d Hd4 c); exact Hat).
+  destruct (LoaderRimi.rimiss_image_from_files (shc d c) script (shi d img) Hs' Hv H6 L s0 HI Hat' Hsm Hpe Hcap Hr)
+    as (s' & eh' & E1 & _ & R & P & _ & P28 & _ & D & C).
+  cbn [shi im_elements] in E1. destruct (unshift_eh _ _ E1) as (eh & F1 & F2). subst eh'. rewrite rimage_steps_sh in R.
+  exists s', eh. change (gv (shc d c)) with (gv c) in R. auto 10.
+Qed.
+
+(* RIMI full *)
+Lemma fNtot_sh c img : WholeImageRimiFull.fNtot (shc d c) (shi d img) = WholeImageRimiFull.fNtot c img.
+Proof.
+  unfold WholeImageRimiFull.fNtot, WholeImageRimiFull.ftb, WholeImageRimiFull.fNmax, WholeImageRimiFull.fneed_id. cbn [shi im_methods]. rewrite max_depth_sh, map_length.
+  f_equal. induction (seq 0 (List.length (im_methods img))) as [|x tl IH]; cbn [fold_right]; [reflexivity|].
+  rewrite need_method_sh, IH. reflexivity.
+Qed.
+Lemma FSW_sh img : WholeImageRimiFull.FSW (shi d img) = WholeImageRimiFull.FSW img.
+Proof.
+  unfold WholeImageRimiFull.FSW, WholeImageRimiFull.FSSmax, WholeImageRimiFull.fssn_id. cbn [shi im_methods]. rewrite max_depth_sh, map_length. f_equal.
+  induction (seq 0 (List.length (im_methods img))) as [|x tl IH]; cbn [fold_right]; [reflexivity|].
+  rewrite ss_need_sh, IH. reflexivity.
+Qed.
+Lemma fimage_steps_sh img eh :
+  WholeImageRimiFull.fimage_steps (shi d img) (map (fun x => (she d (fst x), snd x)) eh) = WholeImageRimiFull.fimage_steps img eh.
+Proof.
+  unfold WholeImageRimiFull.fimage_steps, WholeImageRimiFull.fchain_cost. f_equal. f_equal.
+  induction eh as [|[e h] tl IH]; cbn [map fold_right fst snd]; [reflexivity|]. rewrite IH. f_equal.
+  unfold WholeImageRimiFull.felem_cost, WholeImageRimiFull.fmsteps. cbn [shi im_methods]. rewrite max_depth_sh.
+  destruct e as [id|p]; cbn [she shp p_methods]; rewrite steps_method_sh; reflexivity.
+Qed.
+
+Theorem rimifull_image_runs_relocated c script img :
+  successful c script img -> c_variant c = GRimiFull -> c_data_reg c <> 6 -> cfg_ok (shc d c) = true ->
+  forall L s0, Init (shc d c) (shi d img) (WholeImageRimiFull.fNtot c img) L s0 -> code_lo L = int_start_al c + d ->
+    code_hi L - code_lo L < 2147483648 - 2048 -> pics_encodable (shi d img) ->
+    WholeImageRimiFull.FSW img <= zlen (im_ss img) ->
+    (forall r o, In (r, o) int_slots -> 0 <= rget s0 r < W64) ->
+    exists s' eh, map fst eh = im_elements img /\
+      run (gv c) L (WholeImageRimiFull.fimage_steps img eh) s0 = (Next s', WholeImageRimiFull.fimage_steps img eh) /\ pc s' = halt_at L /\
+      rget s' 28 = ss_hi L /\ dom s' = 0 /\ cfi s' = [].
+Proof.
+  intros Hs Hv H6 Hc' L s0 HI Hat Hsm Hpe Hcap Hr.
+  pose proof (successful_sh c script img Hs Hc') as Hs'.
+  rewrite <- (fNtot_sh c img) in HI. rewrite <- (FSW_sh img) in Hcap.
+  assert (Hat' : code_lo L = int_start_al (shc d c)) by (rewrite (int_start_sh d Hd4 c); exact Hat).
+  destruct (LoaderRimiFull.rimifull_image_from_files (shc d c) script (shi d img) Hs' Hv H6 L s0 HI Hat' Hsm Hpe Hcap Hr)
+    as (s' & eh' & E1 & _ & R & P & _ & P28 & _ & D & C).
+  cbn [shi im_elements] in E1. destruct (unshift_eh _ _ E1) as (eh & F1 & F2). subst eh'. rewrite fimage_steps_sh in R.
+  exists s', eh. change (gv (shc d c)) with (gv c) in R. auto 10.
+Qed.
+
+(* FIXER *)
+Lemma steps_fixer_sh ms : forall f id, MethodContractFixer.steps_fixer (map (shm d) ms) f id = MethodContractFixer.steps_fixer ms f id.
+Proof.
+  induction f as [|f IH]; intros id; cbn [MethodContractFixer.steps_fixer]; [reflexivity|].
+  rewrite nth_error_map. destruct (nth_error ms id) as [m|]; cbn [option_map]; [|reflexivity].
+  change (m_instrs (shm d m)) with (m_instrs m). change (m_callees (shm d m)) with (m_callees m).
+  f_equal. induction (m_callees m) as [|x tl IHl]; cbn [fold_right]; [reflexivity|]. rewrite IH, IHl. reflexivity.
+Qed.
+Lemma xNtot_sh c img : WholeImageFixer.xNtot (shc d c) (shi d img) = WholeImageFixer.xNtot c img.
+Proof.
+  unfold WholeImageFixer.xNtot, WholeImageFixer.xtb, WholeImageFixer.xNmax, WholeImageFixer.xneed_id. cbn [shi im_methods]. rewrite max_depth_sh, map_length.
+  f_equal. induction (seq 0 (List.length (im_methods img))) as [|x tl IH]; cbn [fold_right]; [reflexivity|].
+  rewrite need_method_sh, IH. reflexivity.
+Qed.
+Lemma ximage_steps_sh img eh :
+  WholeImageFixer.ximage_steps (shi d img) (map (fun x => (she d (fst x), snd x)) eh) = WholeImageFixer.ximage_steps img eh.
+Proof.
+  unfold WholeImageFixer.ximage_steps, WholeImageFixer.xchain_cost. f_equal. f_equal.
+  induction eh as [|[e h] tl IH]; cbn [map fold_right fst snd]; [reflexivity|]. rewrite IH. f_equal.
+  unfold WholeImageFixer.xelem_cost, WholeImageFixer.xmsteps. cbn [shi im_methods]. rewrite max_depth_sh.
+  destruct e as [id|p]; cbn [she shp p_methods]; rewrite steps_fixer_sh; reflexivity.
+Qed.
+
+Theorem fixer_image_runs_relocated c script img :
+  successful c script img -> c_variant c = GFixer -> c_data_reg c <> 6 -> cfg_ok (shc d c) = true ->
+  forall L s0, Init (shc d c) (shi d img) (WholeImageFixer.xNtot c img) L s0 -> code_lo L = int_start_al c + d ->
+    code_hi L - code_lo L < 2147483648 - 2048 -> pics_encodable (shi d img) ->
+    (forall r o, In (r, o) int_slots -> 0 <= rget s0 r < W64) ->
+    exists s' eh, map fst eh = im_elements img /\
+      run (gv c) L (WholeImageFixer.ximage_steps img eh) s0 = (Next s', WholeImageFixer.ximage_steps img eh) /\ pc s' = halt_at L /\
+      dom s' = 0 /\ cfi s' = [].
+Proof.
+  intros Hs Hv H6 Hc' L s0 HI Hat Hsm Hpe Hr.
+  pose proof (successful_sh c script img Hs Hc') as Hs'.
+  rewrite <- (xNtot_sh c img) in HI.
+  assert (Hat' : code_lo L = int_start_al (shc d c)) by (rewrite (int_start_sh d Hd4 c); exact Hat).
+  destruct (LoaderFixer.fixer_image_from_files (shc d c) script (shi d img) Hs' Hv H6 L s0 HI Hat' Hsm Hpe Hr)
+    as (s' & eh' & E1 & _ & R & P & _ & _ & D & C).
+  cbn [shi im_elements] in E1. destruct (unshift_eh _ _ E1) as (eh & F1 & F2). subst eh'. rewrite ximage_steps_sh in R.
+  exists s', eh. change (gv (shc d c)) with (gv c) in R. auto 10.
+Qed.
 End RR.
 
 Print Assumptions plain_image_runs_relocated.
+Print Assumptions rimiss_image_runs_relocated.
+Print Assumptions rimifull_image_runs_relocated.
+Print Assumptions fixer_image_runs_relocated.
